@@ -302,7 +302,7 @@ func (s Slice) elems() []Value {
 
 // hugeSlicePhys: slices longer than this are materialised only up to this many
 // cells (enough for "allocate, then fail to fill it from a short input").
-const hugeSlicePhys = 1 << 16
+var hugeSlicePhys = 1 << 16
 
 func newSlice(n, c int, elemT types.Type) Slice {
 	phys := c
